@@ -133,6 +133,8 @@ let predict (c : string) (obs : string) : string * string * bool =
       let target_h2 = h2gun && mode <> "2" in
       let opts_s = next () in
       (* r<0|1> in front: the gun option `redirect` *)
+      let opts_s = (* o<0|1> in front: the samples are read back from the phout aggregator's file (the same samples are expected) *)
+        if String.length opts_s > 2 && opts_s.[0] = 'o' then String.sub opts_s 2 (String.length opts_s - 2) else opts_s in
       let opts_s = (* p<0|1> in front: POST ammo with a body (the same samples are expected) *)
         if String.length opts_s > 2 && opts_s.[0] = 'p' then String.sub opts_s 2 (String.length opts_s - 2) else opts_s in
       let (redirect, opts_s) =
@@ -268,7 +270,11 @@ let predict (c : string) (obs : string) : string * string * bool =
              else if hops_o = "hops=runaway" then "BAD:redirect-chain-followed-without-end"
              else if run <> "run=ok" then "BAD:run-" ^ (String.sub run 4 (String.length run - 4))
              else if failed then "ok" (* the model predicts a panic the implementation did not have *)
-             else if timely <> "timely=1" then "BAD:configured-timeout-not-honoured"
+             else if timely <> "timely=1" then
+               (* a silent target was not given up: a stalled response past the configured response-header-timeout, or a
+                  rejected CONNECT whose unfinished body the gun has no use for *)
+               (if Array.exists (fun (beh, _, _, _, _, _, _, _) -> String.length beh >= 6 && String.sub beh 0 6 = "tunrej") raw
+                then "BAD:rejected-connect-not-given-up" else "BAD:configured-timeout-not-honoured")
              else if cnt <> Printf.sprintf "n=%d" (List.length ss) then "BAD:sample-count"
              else if List.sort compare (List.map cls rest) <> want then "BAD:sample-content"
              else "ok"
